@@ -246,6 +246,8 @@ def run_impl(c):
         post = dump_tree(store, it)
         # the RAW KEYS after the write (harness/keystore.py), for the key-level tie of the surviving tree (every third case: cheap)
         raw = kst.try_raw_dump(store, it, c["fmt"]) if c.get("ktie") and post is not None else None
+        if c.get("ktie") and post is not None and raw is None:
+            obs["keys_error"] = kst.LAST_ERROR[0]
         back = None
         try:
             back = read_to_memory(store)
@@ -300,6 +302,9 @@ def oracle(c, o):
                        {"why": "read-raises", "exc": o["back"][1]})
     if o.get("diff"):
         return Failure(c, strip(o), f"read-back differs: {o['diff']}", {"why": "differs", "what": o["diff"].split(":")[0][:40]})
+    if o.get("keys_error") and c["pre"] == "fresh":
+        return Failure(c, strip(o), f"key level: after a successful write the store's keys cannot be read as a zarr format {c['fmt']} store: "
+                       f"{o['keys_error']}", {"why": "key-layout"})
     return None
 
 
